@@ -10,6 +10,8 @@ if os.environ.get('FLAVOUR'):
     EXTRA = ' Spread them over different kinds of mistake: at least one involving state carried over between calls or sessions (caches, pools, reused buffers, package-level variables, lazily initialised values), at least one at a size / width / count boundary away from the sizes the existing tests use, and at least one on an error path, a rarely taken branch or a refactoring that looks behaviour-preserving.'
 if os.environ.get('FLAVOUR') == '2':
     EXTRA += ' Other people have already tried the most obvious sites (the central loop of the main functions of these files): prefer helper functions, initialisation and teardown paths, rarely used options, alternative API entry points (the ones the command line tools use rather than the ones the unit tests use), and behaviour that only shows on the second use of an object.'
+if os.environ.get('FILES'):
+    EXTRA += ' Every change must have its decisive edit in one of these files: ' + os.environ['FILES'] + ' (other people have already covered the remaining files listed as relevant; cooperating edits may touch a second file).'
 p = [json.loads(l) for l in open('/verif/properties.jsonl') if l.strip()]
 p = [x for x in p if x['id'] == pid][0]
 print(f"""You are given a scratch git worktree of the Go repository markkurossi/mpc at {wt} (a toolchain for secure two-party computation: MPCL compiler, garbled circuits, OT, p2p). Work ONLY inside {wt}; do not look at or touch /repo or /verif. No network. For every go command use: export GOFLAGS=-mod=mod GOPROXY=off (nothing else; do not set GOTOOLCHAIN or GOSUMDB).
